@@ -386,7 +386,8 @@ def sig_of(ev, call, job):
     """signature of a rejected event for known-findings matching"""
     src = ev if ('op' in ev and ev.get('e') != 'crash') else (call or {})
     sig = {'op': src.get('op', '?'), 'cfg': job.cfg, 'family': job.family}
-    for k, v in src.get('p', {}).items():
+    pp = src.get('p', {})
+    for k, v in (pp.items() if isinstance(pp, dict) else []):
         if isinstance(v, (int, str)):
             sig['p_' + k] = v
     dims = []
